@@ -132,6 +132,9 @@ type vfxCfg struct {
 	KeepHost       bool
 	PoolTimeout    string // "" or a duration (outside the stated quantifier; thorough-only dimension)
 
+	RetryAttempts int   // > 0: a Retry policy with that many attempts (waitDuration 1ms) on every pool
+	FailureCodes  []int // failureCodes of every pool
+
 	CacheSize uint32       // route cache of the HTTPServer (0 = off)
 	MemCache  *vfxMemCache // memoryCache of every pool (nil = none)
 }
@@ -163,7 +166,11 @@ func (c *vfxCfg) serverYAML() string {
 
 func (c *vfxCfg) pipelineYAML(backendHostPort string) string {
 	var b strings.Builder
-	b.WriteString("name: pipe\nkind: Pipeline\nfilters:\n")
+	b.WriteString("name: pipe\nkind: Pipeline\n")
+	if c.RetryAttempts > 0 {
+		fmt.Fprintf(&b, "resilience:\n- name: vfretry\n  kind: Retry\n  maxAttempts: %d\n  waitDuration: 1ms\n", c.RetryAttempts)
+	}
+	b.WriteString("filters:\n")
 	if c.ReqAdaptor != "" {
 		b.WriteString("- name: reqadapt\n  kind: RequestAdaptor\n")
 		switch c.ReqAdaptor {
@@ -194,6 +201,12 @@ func (c *vfxCfg) pipelineYAML(backendHostPort string) string {
 		}
 		if c.PoolTimeout != "" {
 			fmt.Fprintf(&b, "    timeout: %s\n", c.PoolTimeout)
+		}
+		if c.RetryAttempts > 0 {
+			b.WriteString("    retryPolicy: vfretry\n")
+		}
+		if len(c.FailureCodes) > 0 {
+			fmt.Fprintf(&b, "    failureCodes: %s\n", strings.ReplaceAll(fmt.Sprint(c.FailureCodes), " ", ", "))
 		}
 		if m := c.MemCache; m != nil {
 			fmt.Fprintf(&b, "    memoryCache:\n      expiration: %s\n      maxEntryBytes: %d\n      codes: %s\n      methods: [%s]\n",
@@ -228,6 +241,13 @@ type vfxScript struct {
 	Framing  string // "cl" (declared length) | "chunked" (no length, flushed) | "lying" (declared length > bytes sent, then close)
 	LieExtra int
 	Split    int // flush position for chunked
+	// "cut" framing: the backend promises the whole body (Content-Length when CutDeclared, else
+	// chunked), sends the first CutAt bytes (the last chunk torn in the middle) and drops the connection
+	CutAt       int
+	CutDeclared bool
+	// Pre: what the backend does with the first len(Pre) arrivals of the request (attempts):
+	// a status code (answered with a tiny body) or 0 = read the request, then drop the connection
+	Pre []int
 }
 
 // vfxSeen is what the backend received.
@@ -248,9 +268,14 @@ func (s *vfxSeen) String() string {
 	return fmt.Sprintf("%s %s host=%q hdr=%v body=%s bodyErr=%v te=%v cl=%d", s.Method, s.RequestURI, s.Host, s.Header, vfxBrief(s.Body), s.BodyErr, s.TE, s.CL)
 }
 
-type vfxMapper struct{ h egcontext.Handler }
+type vfxMapper struct {
+	mu sync.Mutex
+	h  egcontext.Handler
+}
 
 func (m *vfxMapper) GetHandler(name string) (egcontext.Handler, bool) {
+	m.mu.Lock()
+	defer m.mu.Unlock()
 	if name == "pipe" && m.h != nil {
 		return m.h, true
 	}
@@ -406,6 +431,8 @@ type vfxRig struct {
 	mu         sync.Mutex
 	script     *vfxScript
 	seen       []*vfxSeen
+	arrivals   map[string]int // request id -> how many times it reached the backend
+	mapper     *vfxMapper
 	lastReused bool // the latest request went out on a kept-alive connection
 	reqID      int  // id of the latest request sent (tag X-Vf-Req-Id); received() only returns its records
 }
@@ -418,9 +445,69 @@ func (r *vfxRig) backendHandler(w http.ResponseWriter, req *http.Request) {
 	r.mu.Lock()
 	r.seen = append(r.seen, s)
 	sc := r.script
+	id := s.Header.Get("X-Vf-Req-Id")
+	if r.arrivals == nil {
+		r.arrivals = map[string]int{}
+	}
+	arrival := r.arrivals[id]
+	r.arrivals[id]++
 	r.mu.Unlock()
 	if sc == nil {
 		w.WriteHeader(599)
+		return
+	}
+	hijackClose := func(write func(bw *bufio.ReadWriter)) {
+		hj, ok := w.(http.Hijacker)
+		if !ok {
+			panic(http.ErrAbortHandler)
+		}
+		c, bw, err := hj.Hijack()
+		if err != nil {
+			return
+		}
+		if write != nil {
+			write(bw)
+			_ = bw.Flush()
+		}
+		_ = c.Close()
+	}
+	if arrival < len(sc.Pre) {
+		if code := sc.Pre[arrival]; code != 0 {
+			w.Header().Set("Content-Length", "4")
+			w.Header().Set("X-Vf-Failed-Attempt", strconv.Itoa(arrival))
+			w.WriteHeader(code)
+			_, _ = w.Write([]byte("fail"))
+		} else {
+			hijackClose(nil)
+		}
+		return
+	}
+	if sc.Framing == "cut" {
+		hijackClose(func(bw *bufio.ReadWriter) {
+			fmt.Fprintf(bw, "HTTP/1.1 %d Scripted\r\n", sc.Status)
+			for _, kv := range sc.Headers {
+				fmt.Fprintf(bw, "%s: %s\r\n", kv[0], kv[1])
+			}
+			cut := sc.CutAt
+			if cut < 0 || cut > len(sc.Body) {
+				cut = len(sc.Body)
+			}
+			if sc.CutDeclared {
+				fmt.Fprintf(bw, "Content-Length: %d\r\n\r\n", len(sc.Body))
+				_, _ = bw.Write(sc.Body[:cut])
+				return
+			}
+			bw.WriteString("Transfer-Encoding: chunked\r\n\r\n")
+			first := cut / 2
+			if first > 0 {
+				fmt.Fprintf(bw, "%x\r\n", first)
+				_, _ = bw.Write(sc.Body[:first])
+				bw.WriteString("\r\n")
+			}
+			// a chunk that announces the rest of the body but is torn
+			fmt.Fprintf(bw, "%x\r\n", len(sc.Body)-first)
+			_, _ = bw.Write(sc.Body[first:cut])
+		})
 		return
 	}
 	h := w.Header()
@@ -498,6 +585,7 @@ func vfxNewRig(cfg *vfxCfg) (rig *vfxRig, err error) {
 		return nil, fmt.Errorf("server spec: %v", err)
 	}
 	mapper := &vfxMapper{h: r.pipe}
+	r.mapper = mapper
 	r.mux = newMux(httpstat.New(), httpstat.NewTopN(10), mapper)
 	r.mux.reload(sspec, mapper)
 
@@ -506,6 +594,30 @@ func vfxNewRig(cfg *vfxCfg) (rig *vfxRig, err error) {
 	hub.cur = r
 	hub.mu.Unlock()
 	return r, nil
+}
+
+// update replaces the pipeline by a new generation built from cfg, the way the supervisor does it:
+// a new Pipeline object inherits from the running one (Pipeline.Inherit closes the old generation).
+// The HTTPServer side (mux, its limits, its route cache) is left alone.
+func (r *vfxRig) update(cfg *vfxCfg) (err error) {
+	defer func() {
+		if p := recover(); p != nil {
+			err = fmt.Errorf("panic while updating the pipeline: %v", p)
+		}
+	}()
+	r.hub.inflight.Wait() // requests are sent one at a time; let the last handler finish its epilogue
+	y := cfg.pipelineYAML(r.backendHost)
+	pspec, err := supervisor.NewSpec(y)
+	if err != nil {
+		return fmt.Errorf("pipeline spec: %v", err)
+	}
+	np := &pipeline.Pipeline{}
+	np.Inherit(pspec, r.pipe, nil)
+	r.mapper.mu.Lock()
+	r.mapper.h = np
+	r.mapper.mu.Unlock()
+	r.pipe, r.cfg, r.pipeYAML = np, cfg, y
+	return nil
 }
 
 // Close uninstalls the case, waits for its handlers and closes what it built.
